@@ -38,6 +38,12 @@ TRUSTED = ['extraction of Graph.symbols_to_graph_M / Graph.nx_edges / GTokenise.
            'harness/parser_common.py encoders; harness/evalmodel.py recording ndarray',
            "CPython's exec of one generated statement as 'an isolated evaluation of the equation'; networkx DiGraph node / edge iteration order"]
 ASSUMPTIONS = ['input strings are Latin-1',
+               'K_graph compares node / edge insertion order and the non-variable nodes (functions, keywords) with the model: stricter than the '
+               'property, which speaks of variable-like nodes and sets of edges (the oracle compares only those); a harmless change of order '
+               'shows up as a K disagreement with no failing input',
+               'parser-side theorems are about parse_model_nocheck (check_syntax=False); for parser output the link between Symbol.equation (graph '
+               'input) and Symbol.code (what runs) is C20_equation_and_code_same_tokens (same token list) plus this oracle: every equation executed '
+               'alone on 4 data vectors with every cell perturbed by +-0.4 and +-7.3 (tuple targets and named periods included)',
                'theorems speak about normalised equations given as token lists (GNorm.neq); that the equations fsic produces are such '
                'texts is checked per case by K_domain (the extracted GTokenise.tokenise — proved sound and complete for neq_wf — accepts the real equation); it is '
                'proved inside the model for statements written in de-normalised form (C20_reparsed_graph), for whole scripts of such '
